@@ -18,7 +18,7 @@ from fractions import Fraction
 from engine import dump, traces
 
 LEVEL = 'model_checking'
-PARTS = ['scope', 'lit', 'scaled', 'src', 'pow', 'chain', 'bin']
+PARTS = ['scope', 'lit', 'scaled', 'near', 'src', 'pow', 'chain', 'bin']
 OPFN = {'+': operator.add, '-': operator.sub, '*': operator.mul, '/': operator.truediv, '^': operator.pow}
 IOPFN = {'+': operator.iadd, '-': operator.isub, '*': operator.imul, '/': operator.itruediv, '^': operator.ipow}
 RNAME = {'+': '__radd__', '-': '__rsub__', '*': '__rmul__', '/': '__rtruediv__', '^': '__rpow__'}
@@ -79,13 +79,20 @@ def entry_text(q):
     return '%d%s%s' % (a, '-' if b < 0 else '+', im)
 
 
+def dec_text(a, d):
+    from decimal import Decimal, getcontext
+    getcontext().prec = 40
+    t = '{:f}'.format(Decimal(a) / Decimal(d))
+    return t.rstrip('0').rstrip('.') if '.' in t else t
+
+
 def scalar_text(q, bare=False):
     a, b, d = q
     if b == 0:
         if d == 1:
             t = str(a)
         else:
-            t = repr(a / d)                    # dyadic by construction: exact decimal text
+            t = dec_text(a, d)                 # d = 2^j or 10^j: exact finite decimal text
         simple = a >= 0
     else:
         if d == 1:
@@ -180,6 +187,46 @@ def source_forms(op, x, y, side, src):
         return evaluator(var, variables=vs, functions=all_functions())[0]
     return [('string-call/%s/literal' % src, lambda: evaluator(lit, variables=DEFAULT_VARIABLES, functions=all_functions())[0]),
             ('string-call/%s/variable' % src, var_thunk)], lit
+
+
+def near_forms(x, c, neg, allowed_val):
+    """exponent (base*10^p + d)/10^p written as a sum base+delta, or carried by a zero-dimensional MathArray"""
+    import numpy as np
+    from mitxgraders.helpers.calc.expressions import evaluator
+    from mitxgraders.helpers.calc.mathfuncs import DEFAULT_VARIABLES
+    from mitxgraders.helpers.calc.math_array import MathArray
+    base, d, p = c['base'], c['d'], c['p']
+    delta = dec_text(abs(d), 10 ** p)
+    sumtxt = '(%d%s%s)' % (base, '-' if d < 0 else '+', delta)
+    yval = float(Fraction(base * 10 ** p + d, 10 ** p))
+    atxt = array_text(x)
+    forms = []
+    if c['wr'] == 'sum':
+        forms.append(('string-literal/sum', lambda: evaluator('%s^%s' % (atxt, sumtxt), variables=DEFAULT_VARIABLES)[0]))
+
+        def var_thunk():
+            vs = dict(DEFAULT_VARIABLES)
+            vs['X'] = to_py(x, 'float', 'float')
+            vs['t'] = float(Fraction(abs(d), 10 ** p))
+            return evaluator('X^(%d%st)' % (base, '-' if d < 0 else '+'), variables=vs)[0]
+        forms.append(('string-variable/sum', var_thunk))
+        forms.append(('grader/sum', lambda: grader_form(x, {'sh': [], 'e': [[0, 0, 1]]}, neg, allowed_val, literal=False,
+                                                        exponent_text=sumtxt)))
+        ftxt = '%s^%s' % (atxt, sumtxt)
+    else:
+        for dt in ('int', 'float'):
+            forms.append(('operator/%s/array0' % dt, lambda dt=dt: to_py(x, 'float', dt) ** MathArray(np.array(yval))))
+            forms.append(('inplace/%s/array0' % dt,
+                          lambda dt=dt: operator.ipow(to_py(x, 'float', dt), MathArray(np.array(yval)))))
+
+        def var_thunk():
+            vs = dict(DEFAULT_VARIABLES)
+            vs['X'] = to_py(x, 'float', 'float')
+            vs['Y'] = MathArray(np.array(yval))
+            return evaluator('X^Y', variables=vs)[0]
+        forms.append(('string-variable/array0', var_thunk))
+        ftxt = '%s^MathArray(%r)' % (atxt, yval)
+    return forms, ftxt
 
 
 def frac_text(nd):
@@ -364,7 +411,7 @@ def dependent_config():
                              'm': DependentSampler(depends=['n'], formula='n^2+1')})
 
 
-def grader_form(x, y, neg, allowed_val, literal, dependent=False):
+def grader_form(x, y, neg, allowed_val, literal, dependent=False, exponent_text=None):
     """the student enters X^k (or the literal matrix ^k); the author's answer is the value the spec computed"""
     from mitxgraders import MatrixGrader
     answer = value_text(allowed_val) if allowed_val is not None else 'X'
@@ -375,7 +422,7 @@ def grader_form(x, y, neg, allowed_val, literal, dependent=False):
         cfg['negative_powers'] = False
     g = MatrixGrader(**cfg)
     base = array_text(x) if literal else 'X'
-    res = g(None, '%s^%s' % (base, scalar_text(y['e'][0])))
+    res = g(None, '%s^%s' % (base, exponent_text or scalar_text(y['e'][0])))
     return GraderSaid(res['ok'])
 
 
@@ -526,6 +573,11 @@ def case_of_state(c):
     if c['kind'] == 'pow':
         return {'kind': 'bin', 'op': '^', 'neg': c['neg'], 'x': {'sh': [2, 2], 'e': list(c['r1']) + list(c['r2'])},
                 'y': c['y'], 'part': 'pow'}
+    if c['kind'] == 'near':
+        d = {'kind': 'bin', 'op': '^', 'neg': c['neg'], 'x': c['m'], 'y': c['y'], 'part': 'near'}
+        if c['wr'] != 'decimal':
+            d['near'] = {k: c[k] for k in ('wr', 'base', 'd', 'p')}
+        return d
     if c['kind'] == 'scaled':
         return {'kind': 'bin', 'op': '^', 'neg': c['neg'], 'x': c['x'], 'y': c['y'], 'part': 'scaled'}
     if c['kind'] == 'src':
@@ -596,7 +648,11 @@ def rank_name(a):
 
 
 def replay_case(case, allowed, out):
-    if case['kind'] == 'bin' and 'src' in case:
+    if case['kind'] == 'bin' and 'near' in case:
+        forms, ftxt = near_forms(case['x'], case['near'], case['neg'], allowed['v'] if allowed['k'] == 'val' else None)
+        neg = case['neg']
+        key = ('near', case['near']['wr'], case['near']['d'], allowed['k'], allowed.get('why', ''))
+    elif case['kind'] == 'bin' and 'src' in case:
         forms, ftxt = source_forms(case['op'], case['x'], case['y'], case['side'], case['src'])
         neg = True
         key = ('src', case['op'], case['side'], case['src'], allowed['k'], allowed.get('why', ''))
@@ -774,8 +830,12 @@ def rand_bin_case(rng):
             x = square_for_power(rng, n, cplx, singular, k)
             if x is None:
                 return None
-            if rng.random() < .12:
+            u = rng.random()
+            if u < .12:
                 y = rand_scalar(rng, rng.choice(['half', 'cplx']))
+            elif u < .27:         # next to the integer k, at distance 10^-p: a non-integer all the same
+                p10 = 10 ** rng.randint(3, 8)
+                y = {'sh': [], 'e': [[k * p10 + rng.choice([-1, 1]), 0, p10]]}
             else:
                 y = {'sh': [], 'e': [[k, 0, 1]]}
         elif r < .85:
@@ -969,6 +1029,8 @@ def run(ctx):
             '{-1,0,1,2} and {0,1,i}' if ctx.quick else '{-2..2} and {0,1,i,1+i,-i}', 8 if ctx.quick else 12),
         'chains': 'length 2-4 over scalars, vectors, square matrices (n=%s), one optional group' % (
             '2' if ctx.quick else '2,3'),
+        'near_integer_exponents': '3 square matrices x bases -2..5 x distance +-1e-3..1e-9 (and 0) x switch on/off, written '
+                                  'as decimal, as a sum, as a 0-dim MathArray; the random driver uses distances 1e-3..1e-8',
         'scaled_part': '12 base matrices (7 rank-deficient, 5 regular; 2x2-4x4, real and complex) x scalar factors '
                        '1/1000 .. 1000 and complex x exponents -3..-1 (and 2)',
         'scalar_sources': '11 renderings of a scalar operand (function calls det/trace/abs/sqrt/norm/re/conj, negated '
